@@ -335,7 +335,41 @@ def run(tier):
             ck.violation("GuessOK: initial guesses are the best of the prior draws, in increasing cost", ev_ident[i],
                          site="Posterior.generate_initial_guesses")
     support_part(ck)
+    routing_part(ck)
     return ck.finish()
+
+
+def routing_part(ck):
+    """one component over an index list that is neither sorted nor contiguous (also lists whose first and last entries span exactly n - 1):
+    value and gradient read and write exactly the listed coordinates, alone and inside a JointPrior"""
+    from inference.priors import GaussianPrior, ExponentialPrior, UniformPrior, JointPrior
+    theta = np.array([0.3, 1.7, 0.9, 2.2, 1.1, 0.6])
+    for idx in ([0, 4, 2], [1, 4, 3], [2, 0, 1], [0, 2, 4], [5, 3], [3, 5, 4, 2], [4, 0, 2, 1]):
+        n = len(idx)
+        mean, sig = np.linspace(0.5, 1.5, n), np.linspace(0.4, 1.3, n)
+        beta = np.linspace(0.7, 2.0, n)
+        lo, hi = np.linspace(-1.0, 0.0, n), np.linspace(3.0, 4.5, n)
+        t = theta[idx]
+        for cname, obj, val, grad in (
+                ("GaussianPrior", GaussianPrior(mean=mean, sigma=sig, variable_indices=list(idx)),
+                 float(np.sum(-0.5 * ((t - mean) / sig) ** 2 - np.log(sig) - 0.5 * np.log(2 * np.pi))), -(t - mean) / sig ** 2),
+                ("ExponentialPrior", ExponentialPrior(beta=beta, variable_indices=list(idx)), float(np.sum(-t / beta - np.log(beta))), -1.0 / beta),
+                ("UniformPrior", UniformPrior(lower=lo, upper=hi, variable_indices=list(idx)), float(-np.sum(np.log(hi - lo))), np.zeros(n))):
+            ck.case(("routing", cname, tuple(idx)))
+            try:
+                v = float(obj(theta.copy()))
+                g = np.asarray(obj.gradient(theta.copy()), dtype=float)
+                rest = [k for k in range(6) if k not in idx]
+                jp = JointPrior(components=[obj] + ([GaussianPrior(mean=np.zeros(len(rest)), sigma=np.ones(len(rest)), variable_indices=rest)] if rest else []), n_variables=6)
+                gj = np.asarray(jp.gradient(theta.copy()), dtype=float)
+            except Exception as ex:
+                ck.violation("prior raised on a valid index list", {"class": cname, "variable_indices": idx, "error": repr(ex)[:200]}, site=f"{cname}.routing")
+                continue
+            if not (abs(v - val) <= 1e-12 * (1 + abs(val)) and g.shape == (n,) and np.allclose(g, grad, rtol=1e-12, atol=1e-12)
+                    and np.allclose(gj[idx], grad, rtol=1e-12, atol=1e-12)):
+                ck.violation("a component reads its own coordinates theta[variable_indices] (value) and returns its gradient in that order (routing by index)",
+                             {"class": cname, "variable_indices": idx, "want_value": val, "got_value": v, "want_gradient": grad, "got_gradient": g,
+                              "through_JointPrior": gj[idx]}, site=f"{cname}.routing")
 
 
 def support_part(ck):
